@@ -139,12 +139,12 @@ func sortedListMap(m map[string][]string) [][]any {
 	sort.Strings(keys)
 	out := make([][]any, 0, len(keys))
 	for _, k := range keys {
-		out = append(out, []any{k, strs(m[k])})
+		out = append(out, []any{k, c12strs(m[k])})
 	}
 	return out
 }
 
-func strs(s []string) []string {
+func c12strs(s []string) []string {
 	if s == nil {
 		return []string{}
 	}
@@ -201,7 +201,7 @@ func c12Contrib(dir, name, text string) map[string]any {
 	return map[string]any{
 		"ac": sortedIntMap(fi.AccountCounts), "pc": sortedIntMap(fi.PayeeCounts),
 		"cc": sortedIntMap(fi.CommodityCounts), "tc": sortedIntMap(fi.TagCounts),
-		"tvc": sortedNested(fi.TagValueCounts), "tx": txs, "dt": strs(fi.Dates), "pt": pts,
+		"tvc": sortedNested(fi.TagValueCounts), "tx": txs, "dt": c12strs(fi.Dates), "pt": pts,
 		"inc": incs, "da": declA, "cd": cds,
 	}
 }
@@ -212,26 +212,26 @@ func c12ContribCase(c *Ctx, name, text string) map[string]any {
 	abs := filepath.Join(dir, filepath.FromSlash(name))
 	fi, _, _ := workspace.BuildFileIndexFromContent(abs, c12Real(dir, text))
 	cb := c12Contrib(dir, name, text)
-	return map[string]any{"n": name, "t": text, "inc": cb["inc"], "impl": strs(c12Rels(dir, fi.Includes))}
+	return map[string]any{"n": name, "t": text, "inc": cb["inc"], "impl": c12strs(c12Rels(dir, fi.Includes))}
 }
 
 // c12View: the observable view of a workspace, canonical.
 func c12View(dir string, w *workspace.Workspace) map[string]any {
 	s := w.IndexSnapshot()
 	v := map[string]any{}
-	v["members"] = strs(c12Rels(dir, w.VerifMembers()))
+	v["members"] = c12strs(c12Rels(dir, w.VerifMembers()))
 	if s.Accounts != nil {
-		v["accounts"] = strs(s.Accounts.All)
+		v["accounts"] = c12strs(s.Accounts.All)
 		v["byPrefix"] = sortedListMap(s.Accounts.ByPrefix)
 	} else {
 		v["accounts"] = []string{}
 		v["byPrefix"] = [][]any{}
 	}
-	v["payees"] = strs(s.Payees)
-	v["commodities"] = strs(s.Commodities)
-	v["tags"] = strs(s.Tags)
+	v["payees"] = c12strs(s.Payees)
+	v["commodities"] = c12strs(s.Commodities)
+	v["tags"] = c12strs(s.Tags)
 	v["tagValues"] = sortedListMap(s.TagValues)
-	v["dates"] = strs(s.Dates)
+	v["dates"] = c12strs(s.Dates)
 	v["ac"] = sortedIntMap(s.AccountCounts)
 	v["pc"] = sortedIntMap(s.PayeeCounts)
 	v["cc"] = sortedIntMap(s.CommodityCounts)
@@ -306,7 +306,7 @@ func c12Order(dir string, w *workspace.Workspace) []string {
 	if r == nil {
 		return []string{}
 	}
-	return strs(c12Rels(dir, r.FileOrder))
+	return c12strs(c12Rels(dir, r.FileOrder))
 }
 
 func c12Fresh(dir string) map[string]any {
